@@ -108,25 +108,36 @@ Fixpoint insert_by_idx {X} (x : Z * X) (l : list (Z * X)) : list (Z * X) :=
   end.
 Definition sort_by_idx {X} (l : list (Z * X)) : list (Z * X) := fold_left (fun acc x => insert_by_idx x acc) l [].
 
-Fixpoint replay {A} (p : prog A) (st : rstate) : rresult A :=
+(* The order in which the results of a parallel section reach the join is not observable in the
+   transcript when two branches finish close together (the goroutine that made its last call first is not
+   necessarily the one that delivers its result first).  Where the order matters (ties between equally good
+   candidates are broken by list order) the checkers retry with a rank: the hosts of [fst rank] first, those
+   of [snd rank] last, the others in completion order. *)
+Definition in_hosts (h : host) (l : list host) : bool := existsb (N.eqb h) l.
+Definition rank_sort {X} (rank : list host * list host) (l : list (host * X)) : list (host * X) :=
+  flat_map (fun h => filter (fun x => N.eqb (fst x) h) l) (fst rank)
+  ++ filter (fun x => negb (in_hosts (fst x) (fst rank)) && negb (in_hosts (fst x) (snd rank))) l
+  ++ flat_map (fun h => filter (fun x => N.eqb (fst x) h) l) (snd rank).
+
+Fixpoint replay_r {A} (rank : list host * list host) (p : prog A) (st : rstate) : rresult A :=
   match p with
   | Ret a => RDone a st
   | Panic s => RPanic s st
   | Do s c k =>
       let st := visit s st in
       match c with
-      | Now => replay (k (RZ (r_clock st))) st
-      | Sleep d => replay (k ROk) {| r_rest := r_rest st; r_last := r_last st; r_clock := r_clock st + d; r_files := r_files st; r_sites := r_sites st |}
-      | FileExists f => replay (k (RBool (file_get f (r_files st)))) st
-      | Peek c' => replay (k (RBool (match take_fp (footprint c') (r_rest st) with Some _ => true | None => false end))) st
-      | FileWrite f => replay (k ROk) {| r_rest := r_rest st; r_last := r_last st; r_clock := r_clock st; r_files := file_set f true (r_files st); r_sites := r_sites st |}
-      | FileRemove f => replay (k ROk) {| r_rest := r_rest st; r_last := r_last st; r_clock := r_clock st; r_files := file_set f false (r_files st); r_sites := r_sites st |}
+      | Now => replay_r rank (k (RZ (r_clock st))) st
+      | Sleep d => replay_r rank (k ROk) {| r_rest := r_rest st; r_last := r_last st; r_clock := r_clock st + d; r_files := r_files st; r_sites := r_sites st |}
+      | FileExists f => replay_r rank (k (RBool (file_get f (r_files st)))) st
+      | Peek c' => replay_r rank (k (RBool (match take_fp (footprint c') (r_rest st) with Some _ => true | None => false end))) st
+      | FileWrite f => replay_r rank (k ROk) {| r_rest := r_rest st; r_last := r_last st; r_clock := r_clock st; r_files := file_set f true (r_files st); r_sites := r_sites st |}
+      | FileRemove f => replay_r rank (k ROk) {| r_rest := r_rest st; r_last := r_last st; r_clock := r_clock st; r_files := file_set f false (r_files st); r_sites := r_sites st |}
       | _ =>
           match take_fp (footprint c) (r_rest st) with
           | None => RMismatch s c None st
           | Some (e, rest) =>
               if call_matches (te_call e) c && (r_last st <? te_idx e) then
-                replay (k (te_resp e))
+                replay_r rank (k (te_resp e))
                   {| r_rest := rest; r_last := te_idx e; r_clock := Z.max (r_clock st) (te_time e); r_files := r_files st; r_sites := r_sites st |}
               else RMismatch s c (Some e) st
           end
@@ -138,15 +149,20 @@ Fixpoint replay {A} (p : prog A) (st : rstate) : rresult A :=
          continues from the maximal index / time reached by any branch *)
       (fix branches (bs : list (host * prog resp)) (cur : rstate) (mx_last mx_clock : Z) (acc : list (Z * (host * resp))) : rresult A :=
          match bs with
-         | [] => replay (k (map snd (sort_by_idx (rev acc)))) {| r_rest := r_rest cur; r_last := mx_last; r_clock := mx_clock; r_files := r_files cur; r_sites := r_sites cur |}
+         | [] => replay_r rank (k (rank_sort rank (map snd (sort_by_idx (rev acc))))) {| r_rest := r_rest cur; r_last := mx_last; r_clock := mx_clock; r_files := r_files cur; r_sites := r_sites cur |}
          | (h, b) :: bs' =>
-             match replay b {| r_rest := r_rest cur; r_last := r_last st0; r_clock := r_clock st0; r_files := r_files cur; r_sites := r_sites cur |} with
+             match replay_r rank b {| r_rest := r_rest cur; r_last := r_last st0; r_clock := r_clock st0; r_files := r_files cur; r_sites := r_sites cur |} with
              | RDone r st' => branches bs' st' (Z.max mx_last (r_last st')) (Z.max mx_clock (r_clock st')) ((r_last st', (h, r)) :: acc)
              | RPanic s' st' => RPanic s' st'
              | RMismatch s' c g st' => RMismatch s' c g st'
              end
          end) bs st0 (r_last st0) (r_clock st0) []
   end.
+
+Definition replay {A} (p : prog A) (st : rstate) : rresult A := replay_r ([], []) p st.
+(* rank candidates for a set of hosts: completion order, each host first, each host last *)
+Definition rank_candidates (hosts : list host) : list (list host * list host) :=
+  ([], []) :: map (fun h => ([h], [])) hosts ++ map (fun h => ([], [h])) hosts.
 
 (* ---- replay of a run that was cut short ------------------------------------
    The process died: every thread of it is stopped at some external call.  A call whose
